@@ -22,7 +22,7 @@ def budget(tier):
 
 @st.composite
 def strategy(draw, tier="quick"):
-    a = draw(iv.nonoverlap_layout(max_n=8, alphabet=("a", "b"), with_ids=True))
+    a = draw(iv.nonoverlap_layout(max_n=draw(st.sampled_from([8, 8, 8, 16, 24])), alphabet=("a", "b"), with_ids=True))
     if draw(st.booleans()):
         b = draw(iv.perturbed(a, alphabet=("x", "y")))
     else:
@@ -123,7 +123,38 @@ EXHAUSTIVE_NOTE = "extra phase 'small_scope': union_no_overlap on every pair of 
 
 def extra_phases(tier, seed, jobs):
     g, n = (4, 3) if tier == "quick" else (5, 4)
-    return [("small_scope", "phase_small_scope", [{"i": i, "n": jobs, "grid": g, "max_n": n} for i in range(jobs)])]
+    large = [{"n1": n1, "shape": sh} for n1 in ((1200,) if tier == "quick" else (1200, 5000)) for sh in ("one_spans_all", "one_spans_all_rev", "alternating")]
+    return [
+        ("small_scope", "phase_small_scope", [{"i": i, "n": jobs, "grid": g, "max_n": n} for i in range(jobs)]),
+        ("large", "phase_large", large),
+    ]
+
+
+def _large_case(task):
+    n1 = task["n1"]
+    tiny = [{"s": 10 * k, "d": 4, "l": "ab"[k % 2], "id": k + 1} for k in range(n1)]
+    if task["shape"] == "one_spans_all":  # one list-two event (a day of AFK) across a thousand list-one events
+        return {"a": tiny, "b": [{"s": 2, "d": 10 * n1 + 5, "l": "x"}]}
+    if task["shape"] == "one_spans_all_rev":
+        return {"a": [{"s": 2, "d": 10 * n1 + 5, "l": "a", "id": 1}], "b": [dict(e, l="xy"[k % 2]) for k, e in enumerate({k2: v for k2, v in t.items() if k2 != "id"} for t in tiny)]}
+    return {"a": tiny, "b": [{"s": 10 * k + 3, "d": 5, "l": "xy"[k % 2]} for k in range(n1)]}
+
+
+def phase_large(task):
+    st_ = Stats()
+    case = _large_case(task)
+    try:
+        run_case(case)
+    except Violation as v:
+        st_.failure = {"kind": "large", "case": task, "message": v.msg[:1500]}
+        return st_
+    st_.evals = 1
+    st_.classes[task["shape"]] = 1
+    return st_
+
+
+def replay_large(task):
+    run_case(_large_case(task))
 
 
 def phase_small_scope(task):
